@@ -111,13 +111,14 @@ def run(c):
     hb = c.build_harness("c05")
     if hb is None:
         return c.finish()
+    gorules = bhlib.build_gorules(c)
 
     def observe(n, nrules, seed, tag):
         tmp = os.path.join(c.work, "tmp-" + tag)
         gendir = os.path.join(c.work, "gen-" + tag)
         os.makedirs(tmp, exist_ok=True)
         rc, out = c.run_harness(hb, ["-n", str(n), "-nrules", str(nrules), "-nhist", str(max(24, 2 * nrules)), "-seed", str(seed),
-                                     "-tmp", tmp, "-gendir", gendir, "-repo", c.repo], timeout=900)
+                                     "-tmp", tmp, "-gendir", gendir, "-repo", c.repo] + (["-gorules", gorules] if gorules else []), timeout=900)
         cases = []
         for line in out.split("\n"):
             line = line.strip()
@@ -254,6 +255,20 @@ def run(c):
             for o in cs.get("ops") or []:
                 ops_seen.add(o)
             outside = cs["kind"] == "outside"
+            if cs.get("rules_path") and cs["kind"] != "fixture":
+                inp["rules_source"] = read_text(cs["rules_path"])
+            if cs.get("from_tool"):
+                c.coverage["gorules_precompile_runs"] = c.coverage.get("gorules_precompile_runs", 0) + 1
+            if cs.get("tool_err"):
+                c.fail("oracle", "`gorules precompile` fails on a rules file that Load accepts the conversion of", input=inp,
+                       observed=cs["tool_err"][:1500], expected="the printed IR")
+            if cs.get("tool_differs"):
+                # no verdict of its own: the text of the real tool is what everything below checks
+                c.fail("corr", "`gorules precompile` prints another literal than irprint.File(irconv.ConvertFile(..)) run in the harness on the same rules file",
+                       input=inp, observed=cs["tool_differs"])
+            if cs.get("engine_conv_differs"):
+                c.fail("oracle", "the IR that Load converts a rules file to (convertAST) is not the IR the precompiler converts it to", input=inp,
+                       observed=cs["engine_conv_differs"], expected="equal IR values (reflect.DeepEqual)")
             res = results.get(cs["id"])
             m = coq.get(cs["id"])
             # ---- O: the real toolchain
@@ -275,8 +290,6 @@ def run(c):
                 c.fail("oracle", "evaluating the printed literal does not give back the IR value (reflect.DeepEqual)",
                        input=inp, observed=(res.get("diff") or "")[:1500], expected="equal values")
             if cs.get("rules_path"):
-                if cs["kind"] != "fixture":
-                    inp["rules_source"] = read_text(cs["rules_path"])
                 ea, eb = res.get("load_err_a"), res.get("load_err_b")
                 if res.get("mutated"):
                     c.fail("oracle", "LoadFromIR changed the *ir.File value it was given (a precompiled value is a package-level variable, every later load reads it)",
